@@ -56,6 +56,10 @@ CHECKS = {
   "round-trip monitor plus independent writer (layout variation) plus two-cycle closure on reader-accepted texts",
   "(1) Metrics values in the representable domain are written and read back and must be equal in every glyph's width, box and ligature map, the code of each glyph, the kerning list in order and all header fields including Version and Notice. (2) The same values are written by an independent AFM writer with other spacing, field order inside C lines, header order, comment/blank lines and LF or CRLF line ends and must read as the same value. (3) AFM-like texts (fractional and out-of-range numbers, duplicate glyphs and codes, missing fields, junk, dropped and duplicated lines) that the reader accepts are cycled twice: all names and text fields equal after the first cycle, every number changed by less than 1, and the second cycle changes nothing.",
   "Bare CR line ends are not generated (the AFM specification's wording is arguable). Texts yielding non-finite or >= 2^53 numbers are counted and skipped in clause 3."),
+ "C20": ("exploration", "DESIGN.md 11/C20",
+  "reference-model monitor: an independent Type 1 reader and charstring decoder inspects every number token (value, encoded form) and the absolute path of charstrings the library wrote; exhaustive over -70000..70000 and all format boundaries",
+  "Fonts whose glyph paths sweep the value ranges are written by the library and decoded by the harness's own reader (tokenizer + evaluator + ciphers + charstring decoder written from the Type 1 book). Every integer in -70000..70000, every number-format boundary and power of two +-3 up to 2^31 and the int32 extremes are used as coordinate deltas in every operand slot of the move, line and three curve commands, as advance widths (hsbw and sbw) and as stem values; each integer token must be in the form its range prescribes and decode to the requested value (all-integer glyphs exact). Fractional deltas (all k/q for q <= 107, near-integers, midpoints between neighbouring fractions, values just inside the bound) must appear as `p q div` with integer operands, and the absolute position of every point of paths with up to 1500/10000 fractional segments must stay within 1/214 of the request, for the independent decoder and for type1.Read alike.",
+  "Trusted: harness/ref. Values between the enumerated ranges are sampled (32-bit), not exhausted."),
 }
 
 NOT_CLAIMED = {}
